@@ -4,7 +4,7 @@ C01 part B2 — part 2: the fold of `insertAt` that `combine_legs` uses to place
 legs (`legs.insert(na, pipe)` for ascending `new_axes`), entry by entry; counting lemma for the positions that
 are not new axes.
 -/
-namespace TenpyModel.C01B2
+namespace TenpyModel.C01B2.Comb
 open TenpyModel.Core TenpyModel.C01B
 
 theorem insertAt_getD {β} (i : Nat) : ∀ (l : List β) (x d : β) (_ : i ≤ l.length) (k : Nat),
@@ -208,4 +208,4 @@ theorem idxOf_nonNew (pos : List Nat) (n k : Nat) (hk : k < n) (hm : k ∉ pos) 
     have := (List.mem_filter.1 h).1
     simp at this
 
-end TenpyModel.C01B2
+end TenpyModel.C01B2.Comb
